@@ -13,6 +13,7 @@ package chk
 // Both are source-to-source edits checked by re-type-checking the result; when that fails the original text is analysed.
 
 import (
+	"go/constant"
 	"fmt"
 	"go/ast"
 	"go/token"
@@ -176,6 +177,58 @@ func planCanon(p *Prog, stdlib, methods bool) canonPlan {
 				}
 				return true
 			}
+			// v := slices.MinFunc(S, cmp) where S is a local slice that is not used afterwards (and the statement is not in
+			// a loop or a literal) is the first element of S sorted by cmp:  sort.Slice(S, less); v := S[0]
+			minAssign := map[*ast.CallExpr]*ast.AssignStmt{}
+			for _, d := range file.Decls {
+				fd, isFd := d.(*ast.FuncDecl)
+				if !isFd || fd.Body == nil {
+					continue
+				}
+				var walk func(n ast.Node, nested bool)
+				walk = func(n ast.Node, nested bool) {
+					ast.Inspect(n, func(m ast.Node) bool {
+						switch y := m.(type) {
+						case *ast.ForStmt, *ast.RangeStmt, *ast.FuncLit:
+							if m != n {
+								walk(m, true)
+								return false
+							}
+						case *ast.AssignStmt:
+							if nested || len(y.Lhs) != 1 || len(y.Rhs) != 1 || (y.Tok != token.DEFINE && y.Tok != token.ASSIGN) {
+								return true
+							}
+							if _, isId := y.Lhs[0].(*ast.Ident); !isId {
+								return true
+							}
+							call, isCall := ast.Unparen(y.Rhs[0]).(*ast.CallExpr)
+							if !isCall || len(call.Args) != 2 || stdName(call.Fun) != "slices.MinFunc" {
+								return true
+							}
+							sid, isId := ast.Unparen(call.Args[0]).(*ast.Ident)
+							if !isId {
+								return true
+							}
+							so, _ := info.Uses[sid].(*types.Var)
+							if so == nil || so.Pos() < fd.Body.Pos() || so.Pos() > fd.Body.End() {
+								return true
+							}
+							usedAfter := false
+							ast.Inspect(fd.Body, func(k ast.Node) bool {
+								if id, isI := k.(*ast.Ident); isI && id.Pos() > y.End() && info.Uses[id] == so {
+									usedAfter = true
+								}
+								return !usedAfter
+							})
+							if !usedAfter {
+								minAssign[call] = y
+							}
+						}
+						return true
+					})
+				}
+				walk(fd.Body, false)
+			}
 			ast.Inspect(file, func(n ast.Node) bool {
 				switch x := n.(type) {
 				case *ast.RangeStmt:
@@ -280,6 +333,89 @@ func planCanon(p *Prog, stdlib, methods bool) canonPlan {
 						}
 					}
 					return true
+				case *ast.AssignStmt:
+					// X = min(X, Y) is `if X > Y { X = Y }` (max likewise) for plain operands X, Y
+					if x.Tok != token.ASSIGN || len(x.Lhs) != 1 || len(x.Rhs) != 1 || !free(x.Pos(), x.End()) {
+						return true
+					}
+					call, isCall := ast.Unparen(x.Rhs[0]).(*ast.CallExpr)
+					if !isCall || len(call.Args) != 2 {
+						return true
+					}
+					bid, isId := call.Fun.(*ast.Ident)
+					if !isId || (bid.Name != "min" && bid.Name != "max") {
+						return true
+					}
+					if _, isB := info.Uses[bid].(*types.Builtin); !isB {
+						return true
+					}
+					if _, isSt := p.parents[x].(*ast.BlockStmt); !isSt {
+						return true
+					}
+					lt := in.text(x.Lhs[0].Pos(), x.Lhs[0].End())
+					if !isPlainOperand(x.Lhs[0]) || !isPlainOperand(call.Args[0]) || !isPlainOperand(call.Args[1]) {
+						return true
+					}
+					a0, a1 := in.text(call.Args[0].Pos(), call.Args[0].End()), in.text(call.Args[1].Pos(), call.Args[1].End())
+					other := ""
+					switch lt {
+					case a0:
+						other = a1
+					case a1:
+						other = a0
+					default:
+						return true
+					}
+					if bt, isB := info.TypeOf(x.Lhs[0]).Underlying().(*types.Basic); !isB || bt.Info()&(types.IsInteger|types.IsString) == 0 {
+						return true
+					}
+					if tv, has := info.Types[call.Args[0]]; !has || tv.Value != nil {
+						return true
+					} else if tv2, has2 := info.Types[call.Args[1]]; !has2 || tv2.Value != nil || !types.Identical(tv.Type, tv2.Type) {
+						return true
+					}
+					op := ">"
+					if bid.Name == "max" {
+						op = "<"
+					}
+					{
+						fe := in.file(x.Pos())
+						fe.edits = append(fe.edits, textEdit{start: in.off(x.Pos()), end: in.off(x.End()), text: "if " + lt + " " + op + " " + other + " {\n" + lt + " = " + other + "\n}"})
+						taken = append(taken, [2]token.Pos{x.Pos(), x.End()})
+						plan.expanded = append(plan.expanded, "x = "+bid.Name+"(x, y) as a conditional assignment")
+					}
+					return false
+				case *ast.BinaryExpr:
+					// cmp.Compare(A, B) OP 0 is A OP B for integers and strings (strings.Compare likewise)
+					call, isCall := ast.Unparen(x.X).(*ast.CallExpr)
+					if !isCall || len(call.Args) != 2 || !free(x.Pos(), x.End()) {
+						return true
+					}
+					switch x.Op {
+					case token.LSS, token.GTR, token.LEQ, token.GEQ, token.EQL, token.NEQ:
+					default:
+						return true
+					}
+					if n := stdName(call.Fun); n != "cmp.Compare" && n != "strings.Compare" {
+						return true
+					}
+					if tv, has := info.Types[x.Y]; !has || tv.Value == nil || tv.Value.ExactString() != "0" {
+						return true
+					}
+					bt, isB := info.TypeOf(call.Args[0]).Underlying().(*types.Basic)
+					if !isB || bt.Info()&(types.IsInteger|types.IsString) == 0 || !types.Identical(info.TypeOf(call.Args[0]), info.TypeOf(call.Args[1])) {
+						return true
+					}
+					{
+						fe := in.file(x.Pos())
+						fe.edits = append(fe.edits, textEdit{start: in.off(x.Pos()), end: in.off(call.Args[0].Pos()), text: "(("})
+						fe.edits = append(fe.edits, textEdit{start: in.off(call.Args[0].End()), end: in.off(call.Args[1].Pos()), text: ") " + x.Op.String() + " ("})
+						fe.edits = append(fe.edits, textEdit{start: in.off(call.Args[1].End()), end: in.off(x.End()), text: "))"})
+						taken = append(taken, [2]token.Pos{x.Pos(), call.Args[0].Pos()}, [2]token.Pos{call.Args[0].End(), call.Args[1].Pos()}, [2]token.Pos{call.Args[1].End(), x.End()})
+						keep[pkgIdent(call.Fun)] = true
+						plan.expanded = append(plan.expanded, "three-way comparison against zero")
+					}
+					return true
 				case *ast.CallExpr:
 					for k := range pendingImports {
 						delete(pendingImports, k)
@@ -316,6 +452,26 @@ func planCanon(p *Prog, stdlib, methods bool) canonPlan {
 							result = "int"
 							body = "\tfor i, x := range s {\n\t\tif " + test + " {\n\t\t\treturn i\n\t\t}\n\t}\n\treturn -1\n"
 						}
+					case "k8s.io/utils/ptr.Deref", "k8s.io/utils/pointer.BoolDeref":
+						// Deref(P, true) is P == nil || *P ; Deref(P, false) is P != nil && *P (P a plain operand)
+						if len(x.Args) != 2 || !isPlainOperand(x.Args[0]) || !free(x.Pos(), x.End()) {
+							return true
+						}
+						tv, has := info.Types[x.Args[1]]
+						if !has || tv.Value == nil || tv.Value.Kind() != constant.Bool {
+							return true
+						}
+						pt := in.text(x.Args[0].Pos(), x.Args[0].End())
+						txt := "(" + pt + " != nil && *" + pt + ")"
+						if constant.BoolVal(tv.Value) {
+							txt = "(" + pt + " == nil || *" + pt + ")"
+						}
+						fe := in.file(x.Pos())
+						fe.edits = append(fe.edits, textEdit{start: in.off(x.Pos()), end: in.off(x.End()), text: txt})
+						taken = append(taken, [2]token.Pos{x.Pos(), x.End()})
+						keep[pkgIdent(x.Fun)] = true
+						plan.expanded = append(plan.expanded, "ptr.Deref with a constant default")
+						return true
 					case "slices.Sort":
 						// slices.Sort(x) for a []string / []int / []float64 is sort.Strings(x) / sort.Ints / sort.Float64s
 						if len(x.Args) != 1 || !free(x.Pos(), x.End()) {
@@ -370,14 +526,63 @@ func planCanon(p *Prog, stdlib, methods bool) canonPlan {
 						keep[pkgIdent(x.Fun)] = true
 						plan.expanded = append(plan.expanded, "stdlib "+name)
 						return true
-					case "slices.SortFunc", "slices.SortStableFunc":
+					case "slices.SortFunc", "slices.SortStableFunc", "slices.MinFunc":
 						// slices.SortFunc(S, func(a, b T) int { ... return E })  ->
 						// sort.Slice(S, func(i, j int) bool { a, b := S[i], S[j]; ... return (E) < 0 })
 						if len(x.Args) != 2 || !isPlainOperand(x.Args[0]) || !free(x.Pos(), x.End()) {
 							return true
 						}
+						minStmt := minAssign[x]
+						if name == "slices.MinFunc" && (minStmt == nil || !free(minStmt.Pos(), minStmt.End())) {
+							return true
+						}
 						lit, ok := ast.Unparen(x.Args[1]).(*ast.FuncLit)
 						if !ok {
+							// a named comparator: slices.SortFunc(S, f) -> sort.Slice(S, func(i, j int) bool { return f(S[i], S[j]) < 0 })
+							fsig, _ := info.TypeOf(x.Args[1]).(*types.Signature)
+							if name == "slices.MinFunc" || fsig == nil || fsig.Params().Len() != 2 || !isPlainOperand(x.Args[1]) {
+								return true
+							}
+							sortNameN, needN := "", false
+							for _, imp := range file.Imports {
+								if strings.Trim(imp.Path.Value, "\"") == "sort" {
+									sortNameN = "sort"
+									if imp.Name != nil {
+										sortNameN = imp.Name.Name
+									}
+								}
+							}
+							if sortNameN == "" {
+								sortNameN, needN = "sort", true
+							}
+							if sc := pkg.Types.Scope().Innermost(x.Pos()); sc != nil {
+								if _, o := sc.LookupParent(sortNameN, x.Pos()); o != nil {
+									if _, isPkg := o.(*types.PkgName); !isPkg {
+										return true
+									}
+								} else if !needN {
+									return true
+								}
+							}
+							ctr++
+							iN, jN := fmt.Sprintf("mlbI%d", ctr), fmt.Sprintf("mlbJ%d", ctr)
+							sl := in.text(x.Args[0].Pos(), x.Args[0].End())
+							ft := in.text(x.Args[1].Pos(), x.Args[1].End())
+							fnN := "Slice"
+							if name == "slices.SortStableFunc" {
+								fnN = "SliceStable"
+							}
+							fe := in.file(x.Pos())
+							fe.edits = append(fe.edits, textEdit{start: in.off(x.Fun.Pos()), end: in.off(x.Fun.End()), text: sortNameN + "." + fnN})
+							fe.edits = append(fe.edits, textEdit{start: in.off(x.Args[1].Pos()), end: in.off(x.Args[1].End()),
+								text: "func(" + iN + ", " + jN + " int) bool { return " + ft + "(" + sl + "[" + iN + "], " + sl + "[" + jN + "]) < 0 }"})
+							if needN && !addedSort {
+								addedSort = true
+								fe.edits = append(fe.edits, textEdit{start: in.off(file.Name.End()), end: in.off(file.Name.End()), text: "\n\nimport \"sort\"\n"})
+							}
+							taken = append(taken, [2]token.Pos{x.Fun.Pos(), x.Fun.End()}, [2]token.Pos{x.Args[1].Pos(), x.Args[1].End()})
+							keep[pkgIdent(x.Fun)] = true
+							plan.expanded = append(plan.expanded, "stdlib "+name+" with a named comparator")
 							return true
 						}
 						var pn []string
@@ -419,7 +624,13 @@ func planCanon(p *Prog, stdlib, methods bool) canonPlan {
 						if name == "slices.SortStableFunc" {
 							fn = "SliceStable"
 						}
-						fe.edits = append(fe.edits, textEdit{start: in.off(x.Fun.Pos()), end: in.off(x.Fun.End()), text: sortName + "." + fn})
+						if minStmt != nil {
+							fe.edits = append(fe.edits, textEdit{start: in.off(minStmt.Pos()), end: in.off(x.Fun.End()), text: sortName + "." + fn})
+							fe.edits = append(fe.edits, textEdit{start: in.off(minStmt.End()), end: in.off(minStmt.End()),
+								text: "\n" + in.text(minStmt.Lhs[0].Pos(), minStmt.Lhs[0].End()) + " " + minStmt.Tok.String() + " " + sl + "[0]"})
+						} else {
+							fe.edits = append(fe.edits, textEdit{start: in.off(x.Fun.Pos()), end: in.off(x.Fun.End()), text: sortName + "." + fn})
+						}
 						// the element parameters are replaced by S[i] / S[j] where they are only read (so that the
 						// comparator reads like a sort.Slice comparator); otherwise they are bound first
 						var pobjs [2]types.Object
@@ -531,6 +742,9 @@ func planCanon(p *Prog, stdlib, methods bool) canonPlan {
 							fe.edits = append(fe.edits, textEdit{start: in.off(file.Name.End()), end: in.off(file.Name.End()), text: "\n\nimport \"sort\"\n"})
 						}
 						taken = append(taken, [2]token.Pos{x.Fun.Pos(), x.Fun.End()}, [2]token.Pos{lit.Type.Pos(), lit.Body.Lbrace + 1})
+						if minStmt != nil {
+							taken = append(taken, [2]token.Pos{minStmt.Pos(), x.Fun.End()}, [2]token.Pos{minStmt.End() - 1, minStmt.End() + 1})
+						}
 						keep[pkgIdent(x.Fun)] = true
 						plan.expanded = append(plan.expanded, "stdlib "+name)
 						return true
@@ -610,6 +824,10 @@ func planCanon(p *Prog, stdlib, methods bool) canonPlan {
 						tail += "var _ = cmp.Compare[int]\n"
 					case "strings":
 						tail += "var _ = strings.Compare\n"
+					case "ptr":
+						tail += "var _ = ptr.Deref[int]\n"
+					case "pointer":
+						tail += "var _ = pointer.BoolDeref\n"
 					}
 				}
 				tail += strings.Join(decls, "\n")
